@@ -7,7 +7,7 @@ probe listeners and the browser callbacks are compared with the model.
 """
 from sim import wire
 from sim.driver import Driver
-from sim.models import DupGuard, ModelCache, lib_ident
+from sim.models import GuardSet, ModelCache, lib_ident
 from sim.net import FaultConfig
 from sim.world import World, zeroconf
 
@@ -153,7 +153,7 @@ class Harness:
         self.drv = Driver(self.w, scenario)
         self.drv.hooks.update({"probe": self.op_probe, "vbrowse": self.op_vbrowse})
         self.model = None
-        self.guards = {}
+        self.guards = GuardSet()
         self.probes = {}  # pid -> Probe (registered)
         self.all_probes = {}
         self.in_delivery = False
@@ -228,15 +228,14 @@ class Harness:
         t_ms = t * 1000.0
         self.model.advance(t)
         self.in_delivery = True
-        g = self.guards.setdefault(rsock.label, DupGuard())
         self.cur = None
         if len(data) > wire.MAX_ABS:
             return
-        if g.suppressed(data, t_ms):
+        if not self.guards.check(rsock.label, data, t_ms):
             self.stats["suppressed"] += 1
             return
         msg = wire.try_decode(data)
-        g.accept(data, t_ms, bool(msg and any(q.qu for q in msg.questions)))
+        self.guards.accept(rsock.label, data, t_ms, bool(msg and any(q.qu for q in msg.questions)))
         if msg is None:
             self.stats["invalid"] += 1
             self.cur = ("invalid", None)
